@@ -4,6 +4,7 @@ package props
 // oracles are asserted.  One generator per catalogued model.
 
 import (
+	"sync"
 	"math"
 
 	"github.com/flowmatters/openwater-core/sim"
@@ -167,7 +168,8 @@ func increasingTable(r *core.Rand, n int, start, maxStep float64, strict bool) [
 type genOpts struct {
 	// class: models with variable-width states (GR4J, Lag) keep the same state width for a given class
 	widthClass int
-	// safeStorage etc. could go here
+	// noDefaultTies: never move a parameter onto its spec default
+	noDefaultTies bool
 }
 
 // GenPSet draws one parameter set for model from its sampling domain.
@@ -396,6 +398,10 @@ func GenPSet(model string, r *core.Rand, o genOpts) PSet {
 		p["bankHeight"] = one(r.Range(0.5, 5))
 		p["linkLength"] = one(r.Range(100, 1e4))
 		p["dailyFlowPowerFactor"] = one(r.Range(0.5, 2))
+		if r.Bool(0.2) {
+			// the spec's default (erosion independent of the day's discharge) and weak dependence
+			p["dailyFlowPowerFactor"] = one(pick(r, 0, 0, r.Range(0, 0.5)))
+		}
 		p["longTermAvDailyFlow"] = one(pick(r, 0, r.Range(1, 1e7)))
 		p["soilPercentFine"] = one(r.Range(0, 100))
 		p["durationInSeconds"] = one(deltaT(r))
@@ -434,7 +440,60 @@ func GenPSet(model string, r *core.Rand, o genOpts) PSet {
 	default:
 		// models without parameters (Input, Sum, Gate, ...), or unknown new models: defaults
 	}
-	return toPSet(desc, p)
+	ps := toPSet(desc, p)
+	if !o.noDefaultTies && r.Bool(0.08) {
+		// one parameter exactly on the value its spec gives as the default (what a user who leaves it out runs with),
+		// where that value lies inside the range this generator draws the parameter from anyway
+		ok := defaultsInRange(model)
+		var cand []int
+		for i, in := range ok {
+			if in {
+				cand = append(cand, i)
+			}
+		}
+		if len(cand) > 0 {
+			i := cand[r.Intn(len(cand))]
+			ps[i] = one(desc.Parameters[i].Default)
+		}
+	}
+	return ps
+}
+
+var defaultRangeCache sync.Map
+
+// defaultsInRange: per scalar parameter of model, whether its spec default lies within the values that 400 draws of
+// the generator (fixed PRNG) span - the default is then a legal value that continuous draws never hit exactly.
+func defaultsInRange(model string) []bool {
+	if v, ok := defaultRangeCache.Load(model); ok {
+		return v.([]bool)
+	}
+	desc := NewModel(model).Description()
+	lo := make([]float64, len(desc.Parameters))
+	hi := make([]float64, len(desc.Parameters))
+	for i := range lo {
+		lo[i], hi[i] = math.Inf(1), math.Inf(-1)
+	}
+	rr := core.NewRand(0x64656661, 0x756c7473)
+	for k := 0; k < 400; k++ {
+		ps := GenPSet(model, rr, genOpts{noDefaultTies: true})
+		for i := range ps {
+			if len(ps[i]) == 1 {
+				lo[i] = math.Min(lo[i], ps[i][0])
+				hi[i] = math.Max(hi[i], ps[i][0])
+			}
+		}
+	}
+	res := make([]bool, len(desc.Parameters))
+	for i, p := range desc.Parameters {
+		res[i] = len(p.Dimensions) == 0 && lo[i] < hi[i] && p.Default >= lo[i] && p.Default <= hi[i]
+		// parameters whose legal range depends on the other parameters of the set stay as drawn (the Muskingum trio
+		// K, X, DeltaT; timestep lengths, which the stability limits of the routing models are written in)
+		if model == "Muskingum" || p.Name == "DeltaT" || p.Name == "durationInSeconds" || p.Name == "timeStepInSeconds" {
+			res[i] = false
+		}
+	}
+	defaultRangeCache.Store(model, res)
+	return res
 }
 
 // gr4jX4: x4 on a dense grid 0.5..4 (+ uniform).  With widthClass>0 all draws share
